@@ -28,6 +28,7 @@ type CutAssert struct {
 	Kind   string // "call", "return", "store"
 	Callee string
 	N      int
+	Anchor string // optional: hash of the site's source line + occurrence ("1a2b3c4d.1"); found first, #N is the fallback
 	Clause Clause
 }
 
@@ -401,6 +402,7 @@ func (ct *ContractTable) LoadFile(path, pkg string, inRepo bool) {
 				ca.Kind = hf[0]
 				name, nstr, _ := strings.Cut(tgt, "#")
 				ca.Callee = name
+				nstr, ca.Anchor, _ = strings.Cut(nstr, "@")
 				ca.N, _ = strconv.Atoi(nstr)
 				if len(hf) == 1 {
 					ca.Kind, _, _ = strings.Cut(hf[0], "#")
